@@ -6,6 +6,10 @@ package c12
 //	(B) the same search continued from scripted (hence reachable) intermediate configurations
 //	(C) quorum / f+1 thresholds through the real VoteCounter for every total power N and every split
 //	(C2) real VoteCounter vs a set-semantics reference model for every message sequence up to a depth
+//	(A2) two consecutive heights, rotating proposer, future-height messages; (C3) future-height buffer of the VoteCounter
+//	(A3) two heights with a validator set that is re-weighted at the height boundary (reweight_test.go)
+//	(C4) real VoteCounter under a re-weighted validator set: votes weigh what their sender holds at the vote's own
+//	     height (reweightvc_test.go)
 //
 // Monitors (monitor_test.go) read machine OUTPUTS and delivered inputs only.
 
@@ -106,7 +110,7 @@ func searchFrom(r *ev.Run, c *cfg, what string, mk func(s *searcher) (gstate, []
 func TestCheck(t *testing.T) {
 	debug.SetGCPercent(150)
 	r := ev.Start("C12", "model_checking")
-	r.SetBudget(ev.Pick(r, 140, 1700))
+	r.SetBudget(ev.Pick(r, 160, 1700))
 	if p := os.Getenv("VERIF_C12_PROF"); p != "" {
 		f, _ := os.Create(p)
 		pprof.StartCPUProfile(f)
@@ -114,6 +118,7 @@ func TestCheck(t *testing.T) {
 	}
 	r.Assume = append(r.Assume,
 		"parts A and B: single height (0), a validator that emitted Commit receives nothing further; part A2: two heights, the next height is started at once after a commit, messages of the height left are dropped for that validator",
+		"part A3: voting power is a function of the height (heights 0 and 1); in every generated configuration the Byzantine validator holds at most f = max{f: 3f < N} at both heights",
 		"messages of rounds above the round bound are not delivered; nothing is claimed beyond the completed k, the round bound and the prefix catalogue",
 		"duplicate delivery and stale timeouts are not separate deviations: each is verified to be a no-op on the real machine (every memo miss / when it becomes stale)",
 		"Byzantine alphabet: nil, each correct proposer's value, one valid Byzantine-only value, one invalid value (if it can propose); any valid-round; any non-empty receiver subset",
@@ -125,10 +130,18 @@ func TestCheck(t *testing.T) {
 	}
 
 	// ---- (C) thresholds, (C2) vote counter differential ---------------------------------------
-	if envInt("VERIF_C12_SKIP_C", 0) == 0 {
+	// VERIF_C12_ONLY=<part>[,<part>] (C, A, A2, A3, B) restricts a run to some parts (development aid)
+	want := func(part string) bool {
+		o := os.Getenv("VERIF_C12_ONLY")
+		return o == "" || strings.Contains(","+o+",", ","+part+",")
+	}
+	if envInt("VERIF_C12_SKIP_C", 0) == 0 && want("C") {
 		thresholds(r)
 		voteCounterDifferential(r)
 		futureHeightBuffer(r)
+		t0 := time.Now()
+		futureHeightReweighted(r)
+		r.Set("C4_seconds", time.Since(t0).Seconds())
 	}
 
 	eq := []uint{1, 1, 1, 1}
@@ -142,7 +155,7 @@ func TestCheck(t *testing.T) {
 	// boundary where the whole alphabet is offered), hence one level less in the quick tier.
 	aCfg := func(b int) *cfg { return newCfg(fmt.Sprintf("n4 equal byz=%d R=1", b), eq, b, 1) }
 	for _, b := range []int{0, 1, 2} {
-		if ob := envInt("VERIF_C12_ONLYBYZ", -1); ob >= 0 && ob != b {
+		if ob := envInt("VERIF_C12_ONLYBYZ", -1); (ob >= 0 && ob != b) || !want("A") {
 			continue
 		}
 		k := ev.Pick(r, 2, 3) // quick: byz=1,2 are deepened to k=3 after the scenarios
@@ -151,7 +164,7 @@ func TestCheck(t *testing.T) {
 		}
 		searchFrom(r, aCfg(b), "A", fromStart, 0, k)
 	}
-	if r.Thorough() && kA < 0 {
+	if r.Thorough() && kA < 0 && want("A") {
 		// three rounds from the initial state, every Byzantine position
 		for _, b := range []int{0, 1, 2, 3} {
 			searchFrom(r, newCfg(fmt.Sprintf("n4 equal byz=%d R=2", b), eq, b, 2), "A", fromStart, 0, 2)
@@ -178,12 +191,35 @@ func TestCheck(t *testing.T) {
 	}
 	for _, p := range plan {
 		for _, b := range []int{0, 1, 2, 3} {
-			if ob := envInt("VERIF_C12_ONLYBYZ", -1); ob >= 0 && ob != b {
+			if ob := envInt("VERIF_C12_ONLYBYZ", -1); (ob >= 0 && ob != b) || !want("A2") {
 				continue
 			}
 			searchFrom(r, newCfgH(fmt.Sprintf("n4 equal byz=%d heights=2 R=%v", b, p.rh), eq, b, p.rh), "A2", fromStart, 0, envInt("VERIF_C12_K2", p.k))
 		}
 	}
+
+	// ---- (A3) two heights with a validator set that is re-weighted at the height boundary ---------------------
+	// The validator set given to the real machines is a function of the height (reweight_test.go); monitors weigh every
+	// message with the power of the message's own height.
+	runA3 := func(last bool) {
+		for _, w := range reweightPlan(r) {
+			if f := os.Getenv("VERIF_C12_A3FILTER"); f != "" && !strings.Contains(fmt.Sprintf("%s byz=%d R=%v k=%d", w.tag, w.byz, w.rh, w.k), f) {
+				continue
+			}
+			if !want("A3") || w.last != last {
+				continue
+			}
+			kmin := 0
+			if old := entries["A3 "+w.name()]; old != nil {
+				if old.res.K >= w.k {
+					continue // already run (the quick family is part of the wide thorough family)
+				}
+				kmin = old.res.K + 1 // the lower levels were completed by an earlier layer of the same configuration
+			}
+			searchFrom(r, newCfgHP(w.name(), w.p0, w.p1, w.byz, w.rh), "A3", fromStart, kmin, envInt("VERIF_C12_K3", w.k))
+		}
+	}
+	runA3(false)
 
 	// ---- (B) scripted prefixes ----------------------------------------------------------------------
 	runScenario := func(sc scenario, kmin, kmax int) {
@@ -202,15 +238,17 @@ func TestCheck(t *testing.T) {
 		}, kmin, kmax)
 	}
 	for _, sc := range scenarios() {
-		runScenario(sc, 0, kB)
+		if want("B") {
+			runScenario(sc, 0, kB)
+		}
 	}
 
 	// ---- deepening (thorough): one more deviation, cheapest first; a deadline cut only loses these ------------
-	if r.Quick() && kA < 0 {
+	if r.Quick() && kA < 0 && want("A") {
 		searchFrom(r, aCfg(2), "A", fromStart, 3, 3)
 		searchFrom(r, aCfg(1), "A", fromStart, 3, 3)
 	}
-	if r.Thorough() && kA < 0 && envInt("VERIF_C12_KB", -1) < 0 {
+	if r.Thorough() && kA < 0 && envInt("VERIF_C12_KB", -1) < 0 && want("A") && want("B") {
 		var scs []scenario
 		for _, sc := range scenarios() {
 			if entries["B "+sc.name] != nil { // base level completed (else the cut is already recorded)
@@ -235,6 +273,8 @@ func TestCheck(t *testing.T) {
 			}
 		}
 	}
+
+	runA3(true)
 
 	outcomes := map[string]int64{}
 	var results []aResult
@@ -281,7 +321,7 @@ func TestCheck(t *testing.T) {
 			r.Sample(x)
 		}
 	}
-	if len(ls) < 4 && r.Violations() == 0 && !cutAny {
+	if len(ls) < 4 && r.Violations() == 0 && !cutAny && os.Getenv("VERIF_C12_ONLY") == "" {
 		r.Infra("vacuous exploration: only %d distinct outcomes %v", len(ls), ls)
 	}
 	pprof.StopCPUProfile()
@@ -300,6 +340,7 @@ func replay(r *ev.Run, file string) {
 		Detail struct {
 			Config string   `json:"config"`
 			Powers []uint   `json:"powers"`
+			Pow1   []uint   `json:"powers_next_height"`
 			Byz    int      `json:"byzantine"`
 			R      int      `json:"round_bound"`
 			RH     []int    `json:"round_bounds_per_height"`
@@ -313,7 +354,10 @@ func replay(r *ev.Run, file string) {
 	if len(rec.Detail.RH) == 0 {
 		rec.Detail.RH = []int{rec.Detail.R}
 	}
-	c := newCfgH(rec.Detail.Config, rec.Detail.Powers, rec.Detail.Byz, rec.Detail.RH)
+	if len(rec.Detail.Pow1) == 0 {
+		rec.Detail.Pow1 = rec.Detail.Powers
+	}
+	c := newCfgHP(rec.Detail.Config, rec.Detail.Powers, rec.Detail.Pow1, rec.Detail.Byz, rec.Detail.RH)
 	s := newSearcher(c, r, "replay "+rec.Detail.Config)
 	fmt.Printf("replaying %q on %s: %v\n", rec.Key, rec.Detail.Config, rec.Detail.Devs)
 	g, tr, ok := s.script(rec.Detail.Devs)
